@@ -169,7 +169,9 @@ def check_against_plan(case, plan, resp, rt, events, strict_calls=True):
         return check_refused(case, plan, resp, rt, events)
     data = resp.get("data")
     errs0 = resp.get("errors") or []
-    if data is None and errs0 and all(isinstance(e, dict) and e.get("path") is None for e in errs0) and not rt.calls:
+    if data is None and errs0 and not rt.calls and all(
+            isinstance(e, dict) and (e.get("path") is None or (isinstance(e.get("extensions"), dict) and "rule" in e["extensions"]))
+            for e in errs0):
         # answered with request-level errors (validation / operation selection / variables) although
         # the reference accepts the request: one violation instead of a cascade
         e0 = errs0[0]
